@@ -179,3 +179,141 @@ Proof.
     destruct (Hi2 _ _ _ _ _ Hpl Hin) as (r & A & B & C). exists id, r. auto.
   - intros p Hin. apply in_map_iff in Hin. destruct Hin as (q & <- & Hin). simpl. exact (Hp2 _ Hin).
 Qed.
+
+(* ---------------------------------------------------------------- completeness of the input table:
+   every input reference among the emitted operations is registered in the MIR's input list, so an
+   input the MIR does not list is referenced by no operation of the program *)
+Definition registered (n : string) (c : cstate) : Prop :=
+  exists pl v, In pl (c_inputs c) /\ In (n, v) (snd pl).
+
+Lemma In_supdate_self {A} k (v : A) l : In (k, v) (supdate k v l).
+Proof.
+  induction l as [|[k' v'] l IH]; simpl; auto.
+  destruct (String.eqb k k'); simpl; auto.
+Qed.
+
+Lemma In_supdate_keep {A} k (v : A) l x :
+  In x l -> In x (supdate k v l) \/ (fst x = k /\ sassoc k l = Some (snd x)).
+Proof.
+  induction l as [|[k' v'] l IH]; simpl; [tauto|].
+  intros [<- | H].
+  - destruct (String.eqb k k') eqn:E; simpl; auto.
+    apply String.eqb_eq in E. subst. right. auto.
+  - destruct (String.eqb k k') eqn:E; simpl; auto.
+    destruct (IH H) as [H1 | [H1 H2]]; auto.
+Qed.
+
+Lemma add_input_registers id ty name party doc c c' :
+  add_input id ty name party doc c = Ok c' ->
+  registered name c' /\ (forall n, registered n c -> registered n c').
+Proof.
+  intros H. unfold add_input in H. destruct (existsb _ (c_inputs c)); [discriminate|]. inversion H; subst; clear H.
+  set (pin := match sassoc party (c_inputs c) with Some l => l | None => [] end).
+  split.
+  - exists (party, supdate name (id, ty, doc) pin), (id, ty, doc). simpl. split; apply In_supdate_self.
+  - intros n (pl & v & Hpl & Hv). unfold registered. simpl.
+    destruct (In_supdate_keep party (supdate name (id, ty, doc) pin) _ _ Hpl) as [Hk | [Hk Hs]].
+    + exists pl, v. auto.
+    + (* pl is the entry of [party] that was replaced *)
+      exists (party, supdate name (id, ty, doc) pin). unfold pin. rewrite Hs.
+      destruct (In_supdate_keep name (id, ty, doc) _ _ Hv) as [Hk' | [Hk' _]].
+      * exists v. split; [apply In_supdate_self | exact Hk'].
+      * simpl in Hk'. subst n. exists (id, ty, doc). split; apply In_supdate_self.
+Qed.
+
+Definition refs_registered (ops : list mentry) (c : cstate) : Prop :=
+  forall e n, In e ops -> e_op e = MInputRef n -> registered n c.
+
+Lemma step_node_registers fs r extra c extra' c' :
+  step_node fs r extra c = Ok (extra', c') ->
+  (forall n, registered n c -> registered n c')
+  /\ (forall n, e_op (entry_of r) = MInputRef n -> registered n c').
+Proof.
+  intros H. unfold step_node in H. unfold entry_of.
+  destruct (r_node r) eqn:Hn; simpl; try (inversion H; subst; split; [auto | intros; discriminate]; fail).
+  - destruct (add_input (r_id r) (r_ty r) name party doc c) as [c1| |] eqn:Ha; cbn [bind] in H; try discriminate.
+    inversion H; subst. destruct (add_input_registers _ _ _ _ _ _ _ Ha) as [A B].
+    split; [exact B|]. intros n E. inversion E; subst. exact A.
+Qed.
+
+Lemma traverse_registers :
+  forall fuel st fs stack ops extra c ops' extra' c',
+    traverse fuel st fs stack ops extra c = Ok (ops', extra', c') ->
+    refs_registered ops c ->
+    refs_registered ops' c' /\ (forall n, registered n c -> registered n c').
+Proof.
+  induction fuel as [|n IH]; intros st fs stack ops extra c ops' extra' c' H Hr; simpl in H; [discriminate|].
+  destruct stack as [|k rest]; [inversion H; subst; auto|].
+  destruct (zmem k (map e_key ops)); [eapply IH; eauto|].
+  destruct (lookup k st) as [r|] eqn:Hl; [|discriminate].
+  destruct (step_node fs r extra c) as [[extra1 c1]| |] eqn:Hs; try discriminate.
+  destruct (step_node_registers _ _ _ _ _ _ Hs) as [Hmono Hnew].
+  assert (Hr1 : refs_registered (ops ++ [entry_of r]) c1).
+  { intros e m He Hm. apply in_app_or in He. destruct He as [He | [<- | []]].
+    - apply Hmono. eapply Hr; eauto.
+    - apply Hnew. exact Hm. }
+  destruct (IH _ _ _ _ _ _ _ _ _ H Hr1) as [A B]. split; [exact A|]. intros m Hm. apply B, Hmono, Hm.
+Qed.
+
+Lemma outputs_loop_registers :
+  forall outs st fs ops macc c ops' mouts fs' c',
+    outputs_loop st fs outs ops macc c = Ok (ops', mouts, fs', c') ->
+    refs_registered ops c -> refs_registered ops' c'.
+Proof.
+  induction outs as [|o outs IH]; intros st fs ops macc c ops' mouts fs' c' H Hr; simpl in H.
+  - inversion H; subst. exact Hr.
+  - destruct (traverse (store_fuel st) st fs [co_id o] ops [] c) as [[[ops1 extra1] c1]| |] eqn:Ht;
+      simpl in H; try discriminate.
+    destruct (lookup (co_id o) st) as [rec|] eqn:Hl; [|discriminate].
+    destruct (traverse_registers _ _ _ _ _ _ _ _ _ _ Ht Hr) as [A _].
+    eapply IH; [exact H|]. intros e n He Hn. destruct (A e n He Hn) as (pl & v & P & Q). exists pl, v. auto.
+Qed.
+
+Lemma functions_loop_mono :
+  forall fuel st fs stack acc c mfuns fs' c',
+    functions_loop fuel st fs stack acc c = Ok (mfuns, fs', c') ->
+    forall n, registered n c -> registered n c'.
+Proof.
+  induction fuel as [|k IH]; intros st fs stack acc c mfuns fs' c' H n Hn; simpl in H; [discriminate|].
+  destruct stack as [|f rest]; [inversion H; subst; exact Hn|].
+  destruct (lookup f st) as [[fid rty node]|] eqn:Hl; [|discriminate].
+  destruct node; try discriminate.
+  destruct (traverse (store_fuel st) st fs [child] [] [] c) as [[[ops1 extra1] c1]| |] eqn:Ht;
+    simpl in H; try discriminate.
+  destruct (arg_records st args) as [margs| |] eqn:Hm; simpl in H; try discriminate.
+  assert (R0 : refs_registered [] c) by (intros e m []).
+  destruct (traverse_registers _ _ _ _ _ _ _ _ _ _ Ht R0) as [_ B].
+  eapply IH; [exact H|]. apply B. exact Hn.
+Qed.
+
+Theorem compile_inputs_complete : forall st fs0 outs m fs',
+  compile st fs0 outs = Ok (m, fs') ->
+  forall e n, In e (m_ops m) -> e_op e = MInputRef n -> In n (map i_name (m_inputs m)).
+Proof.
+  intros st fs0 outs m fs' H. unfold compile in H.
+  destruct (outputs_loop st fs0 outs [] [] (empty_cstate fs0)) as [[[[ops mouts] fs1] c1]| |] eqn:Ho;
+    cbn [bind] in H; try discriminate.
+  destruct (functions_loop (S (List.length st)) st fs1 (rev fs1) [] c1) as [[[mfuns fs2] c2]| |] eqn:Hf;
+    cbn [bind] in H; try discriminate.
+  inversion H; subst; clear H. simpl.
+  assert (R0 : refs_registered [] (empty_cstate fs0)) by (intros e m []).
+  pose proof (outputs_loop_registers _ _ _ _ _ _ _ _ _ _ Ho R0) as R1.
+  intros e n He Hn. pose proof (functions_loop_mono _ _ _ _ _ _ _ _ _ Hf n (R1 e n He Hn)) as (pl & v & P & Q).
+  apply in_map_iff.
+  exists (let '(n0, (id, ty, doc)) := (n, v) in {| i_name := n0; i_ty := ty; i_party := fst pl; i_doc := doc; i_sref := no_sref |}).
+  destruct v as [[id ty] doc]. split; [reflexivity|].
+  apply in_flat_map. exists pl. split; [exact P|].
+  apply in_map_iff. exists (n, (id, ty, doc)). split; [reflexivity | exact Q].
+Qed.
+
+Theorem run_inputs_complete : forall G p m, run G p = Ok m ->
+  forall e n, In e (m_ops m) -> e_op e = MInputRef n -> In n (map i_name (m_inputs m)).
+Proof.
+  intros G p m H. unfold run, run_from in H.
+  destruct (exec G (stmts_size (p_stmts p)) [] (p_stmts p) init_state) as [[rho s']| |];
+    cbn [bind] in H; try discriminate.
+  destruct (make_outputs rho (p_outs p)) as [couts| |]; cbn [bind] in H; try discriminate.
+  destruct (existsb (has_no_id rho) (p_outs p)); cbn [bind] in H; try discriminate.
+  destruct (compile (store s') [] couts) as [[m' fs']| |] eqn:Hc; cbn [bind fst snd] in H; try discriminate.
+  inversion H; subst. eapply compile_inputs_complete; eauto.
+Qed.
